@@ -211,6 +211,40 @@ where
     let stop = Arc::new(AtomicBool::new(false));
     let result: Arc<Mutex<Option<Failure<S::Value>>>> = Arc::new(Mutex::new(None));
     let mut handles = vec![];
+    // watchdog: a case that runs longer than the limit is a hang of the code under test or of the
+    // harness - reported as exit 2 (inconclusive), never as a violation
+    let stamps: Arc<Vec<AtomicU64>> = Arc::new((0..workers).map(|_| AtomicU64::new(0)).collect());
+    let current: Arc<Vec<Mutex<Option<Value>>>> = Arc::new((0..workers).map(|_| Mutex::new(None)).collect());
+    let wd_done = Arc::new(AtomicBool::new(false));
+    {
+        let stamps = stamps.clone();
+        let current = current.clone();
+        let wd_done = wd_done.clone();
+        let t0 = ctx.start;
+        let limit_ms = case_timeout_ms();
+        let id = ctx.id.clone();
+        std::thread::spawn(move || loop {
+            std::thread::sleep(std::time::Duration::from_millis(500));
+            if wd_done.load(Ordering::SeqCst) {
+                return;
+            }
+            let now = t0.elapsed().as_millis() as u64;
+            for (w, s) in stamps.iter().enumerate() {
+                let st = s.load(Ordering::SeqCst);
+                if st != 0 && now.saturating_sub(st) > limit_ms {
+                    let case = current[w].lock().unwrap().clone().unwrap_or(Value::Null);
+                    let p = Path::new(VERIF_ROOT).join("replays").join(format!("{}-hang-{:016x}.json", id, hash_json(&case)));
+                    std::fs::create_dir_all(p.parent().unwrap()).ok();
+                    std::fs::write(&p, serde_json::to_vec_pretty(&json!({"property": id, "message": "watchdog: case did not finish", "case": case})).unwrap()).ok();
+                    eprintln!(
+                        "WATCHDOG property={} worker {} has been inside one case for more than {} ms - hang; inconclusive (exit 2); case saved to {}",
+                        id, w, limit_ms, p.display()
+                    );
+                    std::process::exit(2);
+                }
+            }
+        });
+    }
     for w in 0..workers {
         let share = cases / workers as u32 + if (w as u32) < cases % workers as u32 { 1 } else { 0 };
         if share == 0 {
@@ -220,6 +254,9 @@ where
         let stats = stats.clone();
         let stop = stop.clone();
         let result = result.clone();
+        let stamps = stamps.clone();
+        let current = current.clone();
+        let t0 = ctx.start;
         let seed = ctx.seed.wrapping_mul(1_000_003).wrapping_add(w as u64);
         let h = std::thread::Builder::new()
             .name(format!("rnv-worker-{}", w))
@@ -237,7 +274,10 @@ where
                         // another worker already found a failure: finish quickly
                         return Ok(());
                     }
+                    *current[w].lock().unwrap() = serde_json::to_value(&case).ok();
+                    stamps[w].store((t0.elapsed().as_millis() as u64).max(1), Ordering::SeqCst);
                     let rep = f(&case);
+                    stamps[w].store(0, Ordering::SeqCst);
                     if !shrinking {
                         stats.record(&case, &rep);
                     }
@@ -274,8 +314,13 @@ where
     for h in handles {
         let _ = h.join();
     }
+    wd_done.store(true, Ordering::SeqCst);
     let mut g = result.lock().unwrap();
     g.take()
+}
+
+pub fn case_timeout_ms() -> u64 {
+    std::env::var("RNV_CASE_TIMEOUT_MS").ok().and_then(|s| s.parse().ok()).unwrap_or(180_000)
 }
 
 /// Generate a single value from a strategy with a fixed seed (used by time-boxed real-time
